@@ -1208,7 +1208,7 @@ class CSSMatch(_DocumentNav):
                             # Attribute names are case sensitive in XML, as in the selector that guards this check
                             if not self.is_xml:
                                 k = util.lower(k)
-                            if k == 'type' and util.lower(v) == 'radio':
+                            if k == 'type' and (v if self.is_xml else util.lower(v)) == 'radio':
                                 is_radio = True
                             elif k == 'name' and v == name:
                                 has_name = True
